@@ -204,3 +204,116 @@ def _functor_swap_branch():
 
 
 _functor_swap_branch()
+
+
+# ---------------------------------------------------------------- monoidal.Diagram.permutation (typing; C10 / C01)
+# For every list `perm` and every type `dom`: either ValueError (perm is not a permutation of range(n), or the lengths
+# differ) or a well-formed diagram from dom to a type of the same length.  Loop invariant at step i: the first i entries of
+# perm are 0 .. i-1 and every value v >= i still occurs at some position >= i (a witness function, carried by hand);
+# diagram is well-formed dom -> a type of length n.  Hence perm.index(i) exists, is >= i, and the four slices are in
+# range.  WHICH wire goes where (cod == dom permuted by perm) is not stated here: bounded driver.
+def _int_list(ex, name, n=None):
+    return ex.sym_int_list(name, n)
+
+
+def _p_perm(ex):
+    perm = _int_list(ex, 'perm')
+    dom = ex.sym_ty('dom')
+    ex._pm = (perm, dom)
+    return [perm, dom], {}
+
+
+def _pm_state(interp, env, k):
+    """fresh loop state at step k satisfying the invariant"""
+    ex = interp.ex
+    perm0, dom = ex._pm
+    n = T.ty_len(dom.t)
+    P = _int_list(ex, T.fresh_name('perm_k'), n)
+    base = P.segs[0][1] if P.segs else None
+    where = z3.Function(T.fresh_name('where_k'), T.IntS, T.IntS)
+    if base is not None:
+        ex.add_qhyp([base], lambda m: [(z3.And(0 <= m, m < k), base._elem(m).t == m)])
+    cod = T.fresh('cod_k', T.TyS)
+    ex.assume(z3.Length(cod) == n)
+    X = ex.sym_diagram(T.fresh_name('perm_d'), wf=True, dom=dom.t, cod=cod, global_inst=True)
+    return P, where, X
+
+
+def _pm_where(ex, P, where, k, n, v):
+    """instance of the invariant's second half at value v (k <= v < n assumed by the caller)"""
+    p_ = where(v)
+    ex.assume(z3.And(k <= p_, p_ < n))
+    ex.assume(ex.list_at(P, p_).t == v)
+    return p_
+
+
+def _pm_assume(interp, env, k, seq, at_exit):
+    ex = interp.ex
+    perm0, dom = ex._pm
+    n = T.ty_len(dom.t)
+    P, where, X = _pm_state(interp, env, k)
+    env.set('perm', P)
+    env.set('diagram', X)
+    ex._pm_cur = (P, where, k)
+    if not at_exit:
+        _pm_where(ex, P, where, k, n, k)        # the value searched at this step is still there, at a position >= k
+
+
+def _pm_check(interp, env, k, label, seq):
+    ex = interp.ex
+    perm0, dom = ex._pm
+    n = T.ty_len(dom.t)
+    perm = env.lookup('perm')
+    X = interp.world.as_diagram(env.lookup('diagram'))
+    ex.prove(label + ':len(perm) == len(dom)', perm.length() == n)
+    ex.prove(label + ':diagram.dom == dom', T.ty_eq(X.dom.t, dom.t))
+    ex.prove(label + ':len(diagram.cod) == len(dom)', T.ty_len(X.cod.t) == n)
+    prove_wf(ex, label + ':diagram', X)
+
+    def prefix():
+        m = T.fresh('m', T.IntS)
+        ex.assume(z3.And(0 <= m, m < k))
+        ex.prove(label + ':perm[m] == m below the step', ex.list_at(perm, m).t == m)
+    ex.side(prefix)
+
+    def rest():
+        v = T.fresh('v', T.IntS)
+        ex.assume(z3.And(k <= v, v < n))
+        if T.int_val(k) == 0:
+            # entry: from set(range(n)) == set(perm)
+            if getattr(ex, 'set_eq_at', None) is None:
+                ex.prove(label + ':the loop is entered only after the test set(range(n)) == set(perm)', False)
+                return
+            p_ = ex.set_eq_at(v)
+            w = p_
+        else:
+            P, where, k0 = ex._pm_cur
+            p_ = _pm_where(ex, P, where, k0, n, v)
+            j = env.lookup('j').t
+            w = z3.If(p_ < j, p_ + 1, p_)
+        ex.prove(label + ':every later value still occurs at a later position (range)', z3.And(k <= w, w < n))
+        ex.prove(label + ':every later value still occurs at a later position (value)', ex.list_at(perm, w).t == v)
+    ex.side(rest)
+
+
+def _e_perm(interp, args, kwargs, result):
+    ex = interp.ex
+    perm, dom = ex._pm
+    result = interp.world.as_diagram(result)
+    ex.prove('C10:permutation.dom == dom', T.ty_eq(result.dom.t, dom.t))
+    ex.prove('C10:len(permutation.cod) == len(dom)', T.ty_len(result.cod.t) == T.ty_len(dom.t))
+    prove_wf(ex, 'C01:permutation', result)
+    ex.prove('C10:permutation accepts only lists of the length of dom', perm.length() == T.ty_len(dom.t))
+    ex.prove('C10:permutation accepts only permutations of range(n)', getattr(ex, 'set_eq_flag', z3.BoolVal(False)))
+
+
+def _r_perm(interp, args, kwargs, exc):
+    ex = interp.ex
+    perm, dom = ex._pm
+    ex.prove('C10:permutation refuses with ValueError only (raised %s)' % exc, z3.BoolVal(exc == 'ValueError'))
+    ex.prove('C10:permutation refuses only non-permutations or a wrong length',
+             z3.Or(z3.Not(getattr(ex, 'set_eq_flag', z3.BoolVal(True))), perm.length() != T.ty_len(dom.t)))
+
+
+contract('monoidal.Diagram.permutation', params=_p_perm, ensures=_e_perm, on_raise=_r_perm, property_ids=('C10', 'C01'),
+         loops={0: LoopSpec(assume=_pm_assume, check=_pm_check)})
